@@ -135,6 +135,8 @@ func c09(e *Env) {
 			ob2a.OK(g.Where(n), "complete range over Task.OutIPs")
 		}
 	}
+	// all-or-nothing: no output of a task with a missing output is published (shared with C01.R5)
+	e.ensureBeforeRename("R2", "Execute:missing-output≺any-rename")
 	// ---- R3 forming the task
 	e.c09FormTask()
 	// ---- R4 no recover
